@@ -29,6 +29,19 @@ which it HOLDS (identity of the implementation's objects); Heap_Trace accepts
 that only for the documented mutators, selectors and constructors
 (HeapOps.tla ResultIndependent): `chunks(l, n)` handing out `l` as its only
 piece is rejected.
+
+Round 3: the model also reads (`t = n[0]`, `n[k]`, `n->m`, the read with a
+default `n[k, d]`), takes list indexes from both ends, assigns an element in
+the compound form on a missing key, calls a method found on the prototype
+chain (self = the receiver), lets a list be the key of a map, evaluates a
+parameter's default expression and has OPAQUE results (substitute outside the
+list: content left open, independence not).  The sweep calls every function of
+three or more places with all its parameters (all pairs x a column), sweeps the
+natives bound only outside secure mode inside a sandbox directory, the element
+/ member assignment forms as documented mutators of their first operand, and
+reports per function whether it ever returned a value and which parts of the
+implementation's syntax tree no swept form fills.  Binding B runs in a thread
+beside binding A.
 """
 import io
 import itertools
@@ -40,6 +53,7 @@ import shutil
 import signal
 import sys
 import tempfile
+import threading
 import time
 import warnings
 
@@ -149,11 +163,12 @@ _METHOD_TEXT = []
 def _method_text():
     """How the implementation renders a function held by an object (measured, not assumed)."""
     if not _METHOD_TEXT:
-        it = Interpreter(True, False)
-        t = it.interpret(f"string(<*f={METHOD_SRC}*>)", "c16").value
-        if not (t.startswith("<*f=") and t.endswith("*>")):
-            raise MachineryError("unexpected rendering of an object holding a function: " + t)
-        _METHOD_TEXT.append(t[4:-2])
+        t = "<*f=<#lambda>*>"
+        try:
+            t = Interpreter(True, False).interpret(f"string(<*f={METHOD_SRC}*>)", "c16").value
+        except Exception:       # the rendering of a function is not C16's subject
+            pass
+        _METHOD_TEXT.append(t[4:-2] if t.startswith("<*f=") and t.endswith("*>") else "<#lambda>")
     return _METHOD_TEXT[0]
 
 
@@ -709,9 +724,9 @@ POOL_SRC = ["[]", "[1, 2, 3]", "[3, 1, 2]", "[[1], [2]]", "<<>>", "<<1, 2>>", "<
 # The natives that touch the operating system are bound only outside secure mode.  They (and the
 # library functions that need them) are swept in Interpreter(False, ...) inside a sandbox: the
 # working directory is a fresh temporary directory that is rebuilt before every call, and the pool
-# has three more values that name things there: a program that exists and ends at once, a file, a
-# directory.  No pool value is an absolute path or contains `..`, so nothing outside is named.
-INSECURE_POOL_SRC = ["'true'", "'f.txt'", "'d'"]
+# has four more values that name things there: a program that exists and ends at once, a file, a
+# directory, a list of names (a search path, an argument list).  No pool value is an absolute path or contains `..`, so nothing outside is named.
+INSECURE_POOL_SRC = ["'true'", "'f.txt'", "'d'", "['d', 'f.txt']"]
 SANDBOX_FILE, SANDBOX_FILE_TEXT, SANDBOX_DIR = "f.txt", "1\n", "d"
 # third (and later) places of a call: all pairs of pool values for the first two places are
 # combined with this column, so that every function is executed with ALL its parameters
@@ -1202,7 +1217,8 @@ def sweep(run, rng, maxar, cap, pool):
     return funcs, events, meta, table, stats
 
 
-def validate_sweep(run, events, meta, table, label="Heap_Trace validation of the function sweep"):
+def trace_tlc(events):
+    """Heap_Trace over the recorded events: the TLC result (no access to `run`: may run in a thread)."""
     d = tempfile.mkdtemp(prefix="c16-")
     path = os.path.join(d, "trace.ndjson")
     try:
@@ -1216,6 +1232,12 @@ def validate_sweep(run, events, meta, table, label="Heap_Trace validation of the
             os.rmdir(d)
         except OSError:
             pass
+    return res
+
+
+def validate_sweep(run, events, meta, table, label="Heap_Trace validation of the function sweep", res=None):
+    if res is None:
+        res = trace_tlc(events)
     run.add_tlc(res, label)
     done = res.records("DONE")
     if not done or done[-1]["n"] != len(events):
@@ -1251,6 +1273,29 @@ def validate_sweep(run, events, meta, table, label="Heap_Trace validation of the
 
 
 # ------------------------------------------------------------ entry points
+class Beside:
+    """fn(*args, **kw) in a daemon thread (a thread that is still blocked when the check ends
+    with an error must not keep the process alive); result() waits and re-raises."""
+
+    def __init__(self, fn, *args, **kw):
+        self.out = self.err = None
+
+        def work():
+            try:
+                self.out = fn(*args, **kw)
+            except BaseException as e:      # handed to the main thread
+                self.err = e
+
+        self.thread = threading.Thread(target=work, daemon=True)
+        self.thread.start()
+
+    def result(self):
+        self.thread.join()
+        if self.err is not None:
+            raise self.err
+        return self.out
+
+
 def run(run):
     quick = run.tier == "quick"
     rng = random.Random(run.seed)
@@ -1284,10 +1329,40 @@ def run(run):
         asamples.extend(sm[1:3])
         lap("replay_A")
 
-    with ctx.Pool(NPROC, initializer=_worker_init) as pool:
+    # Binding B does not depend on binding A: its sweep and the validation of its trace run in a
+    # thread beside A (the worker processes of both are forked here, before the thread exists; the
+    # thread reports through a recorder, `run` is touched by the main thread only).
+    class Recorder:
+        def __init__(self):
+            self.drifts = []
+
+        def drift(self, kind, sample=None):
+            self.drifts.append((kind, sample))
+
+    maxar = 2 if quick else 3
+    cap = len(POOL_SRC) ** 2 if quick else 1500      # quick: every pair of pool values
+    rec = Recorder()
+    bphase = {}
+
+    def binding_b(pool):
+        t = time.time()
+        out = sweep(rec, rng, maxar, cap, pool)
+        bphase["sweep_B"] = round(time.time() - t, 1)
+        t = time.time()
+        tres = trace_tlc(out[1])
+        bphase["validate_B"] = round(time.time() - t, 1)
+        return out, tres
+
+    pool_b = ctx.Pool(NPROC)
+    pool_a = ctx.Pool(NPROC, initializer=_worker_init)
+    future_b = Beside(binding_b, pool_b)
+    with pool_b, pool_a as pool:
         # depth 2 from all initial graphs + random walks (both tiers)
         # (-coverage triples TLC's time here; which actions fired is counted from
         # the exported transitions instead: every action labels its transitions)
+        walks, wdepth = (300, 6) if quick else (4000, 8)
+        future_sim = Beside(run_tlc, "Heap", "Heap_sim", workers=1, simulate=f"num={walks}", depth=wdepth,
+                            seed=run.seed % 100000, timeout=3000, coverage=False, env={"INIT_SEL": "0"})
         res = run_tlc("Heap", "Heap_quick", coverage=False, timeout=3000, env={"INIT_SEL": "0"})
         run.add_tlc(res, "Heap alias-graph machine, breadth-first, sequences <= 2 (Heap_quick)")
         for e in res.records("EDGE"):
@@ -1296,9 +1371,7 @@ def run(run):
         never = sorted(set(ALL_OPS) - set(optaken))
         astats["bfs"] += len(res.records("EDGE"))
         ninit = len({json.dumps(x, sort_keys=True) for x in res.records("INIT")})
-        walks, wdepth = (300, 6) if quick else (4000, 8)
-        sim = run_tlc("Heap", "Heap_sim", workers=1, simulate=f"num={walks}", depth=wdepth,
-                      seed=run.seed % 100000, timeout=3000, coverage=False, env={"INIT_SEL": "0"})
+        sim = future_sim.result()
         run.add_tlc(sim, f"Heap random walks of {wdepth} operations ({walks})")
         explore(pool, "depth2+walks", [res, sim])
         del res, sim
@@ -1310,20 +1383,19 @@ def run(run):
                 astats["bfs"] += len(r3.records("EDGE"))
                 explore(pool, f"depth3:G{k}", [r3])
                 del r3
+        (funcs, events, meta, table, stats), tres = future_b.result()
+        lap("wait_for_B")
     for c in asamples[:3]:
         run.sample({"A-program": {"label": c["label"], "build": c["build"],
                                   "steps": [(s["src"], s["want"]) for s in c["steps"]]}})
     if never:
         run.drift("model-action-never-taken", never)
 
-    # binding B
-    maxar = 2 if quick else 3
-    cap = len(POOL_SRC) ** 2 if quick else 1500      # quick: every pair of pool values
-    with ctx.Pool(NPROC) as pool:
-        funcs, events, meta, table, stats = sweep(run, rng, maxar, cap, pool)
-    lap("sweep_B")
-    nbad = validate_sweep(run, events, meta, table)
-    lap("validate_B")
+    # binding B: what the thread found
+    for kind, sample in rec.drifts:
+        run.drift(kind, sample)
+    nbad = validate_sweep(run, events, meta, table, res=tres)
+    phase.update({k + "(beside A)": v for k, v in bphase.items()})
     try:
         unswept = syntax_parts_never_swept()
     except Exception as e:      # a diagnostic that reads the implementation's internals: never fatal
@@ -1384,7 +1456,8 @@ def run(run):
         "identity ...) are drift only: the statement names lists, sets, maps and objects",
         "natives bound only outside secure mode (execute, run, the file natives) and the modules that bind them "
         "(Os, IO) are swept in Interpreter(False, ..) inside a temporary working directory rebuilt before every "
-        "call, with three more pool values naming a program (`true`), a file and a directory there; only `exit` "
+        "call, with four more pool values naming a program (`true`), a file, a directory and a list of names "
+        "there; only `exit` "
         "and `sleep` are left out",
         "a name holding an opaque result (substitute with an index outside the list: the documentation does "
         "not say what it contains) is compared with its own previous reading only",
